@@ -96,6 +96,11 @@ Theorem C07_reject_fill : ∀ C inst SC e, (step C (OFillBlackbox inst SC)).2 = 
 Proof. intros C inst SC e. simpl. unfold fill_blackbox. repeat case_match; simpl; intros [=]; done. Qed.
 Print Assumptions C07_reject_fill.
 
+(* so the only case left open in C07_invariant_full is a fill_blackbox call that SUCCEEDS *)
+Theorem C07_invariant_fill_rejected : ∀ C inst SC e, Inv C → (step C (OFillBlackbox inst SC)).2 = Fail e → Inv (step C (OFillBlackbox inst SC)).1.
+Proof. intros C inst SC e Hi Hf. by destruct (C07_reject_fill C inst SC e Hf) as [-> _]. Qed.
+Print Assumptions C07_invariant_fill_rejected.
+
 (* ---------------------------------------------------------------- add never overwrites or renames *)
 (* every add call (any flags of the property, any outcome): the registry and every existing node's name, type and
    output mark are unchanged and no existing wire is lost *)
